@@ -162,8 +162,18 @@ CANARIES: Dict[str, Dict[str, Any]] = {
     ),
     "max-value-wrong-mantissa": dict(
         props=["C13"], file="unit_scaling/formats.py", module="unit_scaling.formats",
-        old="return cast(float, 2**max_exponent * (2 - 2**-self.mantissa_bits))", new="return cast(float, 2**max_exponent * (2 - 2**-(self.mantissa_bits + 1)))",
+        old="2**max_exponent * (2 - 2**-self.mantissa_bits)", new="2**max_exponent * (2 - 2**-(self.mantissa_bits + 1))",
         job="c13:range[E4M3]", expect=["max_absolute_value_is_largest_value"],
+    ),
+    "max-value-python-int-for-E8M0": dict(
+        props=["C13"], file="unit_scaling/formats.py", module="unit_scaling.formats",
+        old="return float(2**max_exponent * (2 - 2**-self.mantissa_bits))", new="return 2**max_exponent * (2 - 2**-self.mantissa_bits)",
+        job="c13:quantise[E8M0,core]", expect=["C13:formats.FPFormat.quantise[E8M0]:no_exception"],
+    ),
+    "quantise-mask-int64-breaks-0-dim": dict(
+        props=["C13"], file="unit_scaling/formats.py", module="unit_scaling.formats",
+        old="2 ** (23 - self.mantissa_bits) - 1, dtype=torch.int32, device=x.device", new="2 ** (23 - self.mantissa_bits) - 1, device=x.device",
+        job="c13:quantise-dtype[E4M3,float32,rank=0]", expect=["no_exception[rank=0]"],
     ),
     "sr-no-bias-correction": dict(
         props=["C14"], file="unit_scaling/formats.py", module="unit_scaling.formats",
@@ -343,8 +353,13 @@ CANARIES: Dict[str, Dict[str, Any]] = {
     ),
     "c19-non-float-prunes-in-place": dict(
         props=["C19"], file="unit_scaling/transforms/_track_scales.py", module="unit_scaling.transforms._track_scales",
-        old="    graph = deepcopy(graph)\n    for n in graph.nodes:\n        if n.name == \"output\":\n            continue\n", new="    for n in graph.nodes:\n        if n.name == \"output\":\n            continue\n",
+        old="    graph = deepcopy(graph)\n    for n in graph.nodes:\n        if n.op == \"output\":\n            continue\n", new="    for n in graph.nodes:\n        if n.op == \"output\":\n            continue\n",
         job="c19:prune_non_float_tensors[float_args=1,node_is_float=False,user=positional]", expect=["input_graph_unchanged"],
+    ),
+    "c19-output-node-recognised-by-name": dict(
+        props=["C19"], file="unit_scaling/transforms/_track_scales.py", module="unit_scaling.transforms._track_scales",
+        old="        if n.op == \"output\":\n            continue\n", new="        if n.name == \"output\":\n            continue\n",
+        job="c19:prune_non_float_tensors[float_args=1,names=user_variable_called_output,node_is_float=True,user=positional]", expect=["surviving_nodes_keep_their_order_and_nothing_is_added"],
     ),
     "c19-same-scale-ignores-backward": dict(
         props=["C19"], file="unit_scaling/transforms/_track_scales.py", module="unit_scaling.transforms._track_scales",
